@@ -89,9 +89,9 @@ def _parse(res):
     m = re.search(r"Error: Invariant (\S+) is violated", out)
     if m:
         res.violated = m.group(1)
-    m2 = re.search(r"Error: Action property (\S+) is violated", out)
-    if m2:
-        res.violated = m2.group(1)
+    m2 = re.search(r"Error: Action property (?:line \d+, col \d+ to line \d+, col \d+ of module (\w+)|(\S+)) is violated", out)
+    if m2:                                       # an unnamed box-action formula = the [Next]_vars of an instantiated spec
+        res.violated = m2.group(2) or ("not_a_step_of_" + m2.group(1))
     if "Temporal properties were violated" in out:
         res.violated = res.violated or "temporal"
     if "Error:" in out:
